@@ -39,6 +39,7 @@ type Server struct {
 	LastSQLErrno int
 	SSReg        bool // IO thread registered as semi-sync when it last started
 	StickyErr    bool // replication errors come back after every START (permanent breakage)
+	StickySource string // if set, StickyErr holds only while the server points at this source
 
 	Lag            *float64 // reported Seconds_Behind_Source when both threads run (nil => 0)
 	DownloadRate   int64    // transactions per pump step the IO thread fetches (0 = unlimited)
